@@ -184,6 +184,11 @@ func (t *tr) pcs(e ast.Expr, cond bool, hoist *[]*ast.CallExpr) []string {
 	if tv, ok := t.p.info.Types[e]; ok && tv.Value != nil {
 		return nil
 	}
+	if t.spec.round5 {
+		if c, ok := t.pcs5(e, cond, hoist); ok {
+			return c
+		}
+	}
 	switch e := e.(type) {
 	case *ast.ParenExpr:
 		return t.pcs(e.X, cond, hoist)
